@@ -6,7 +6,7 @@ ID = "C15"
 LEVEL = "proof"
 PROPS_FILE = "C15.v"
 RUN_MODULE = "RunC15"
-TRANSLATOR_UNITS = []
+TRANSLATOR_UNITS = ["data"]
 SHARD = 400
 RULE = ("layout trees of depth <= 3 (struct/union/array/flexible over u0..u5, s1..s5 and small shaped Enum/IntEnum leaves) "
         "built with the real classes: placement (size, offset/width of every field by iteration and by key), "
